@@ -1568,6 +1568,11 @@ func (c *Conn) readHeader(b []byte, r *Ctx) error {
 	for len(b) > 0 {
 		b, err = dec.Next(hf, b)
 		if err != nil {
+			// the frame ended in a dynamic table size update: no field in hf
+			if errors.Is(err, ErrUnexpectedSize) && len(b) == 0 {
+				break
+			}
+
 			return err
 		}
 
